@@ -215,6 +215,11 @@ def gen_env(rng, exotic):
             e.add("w", "p{ v }{v}", "p" + e.resolved["v"] * 2)
         else:
             e.add("w", "ww", "ww")
+    if rng.random() < 0.25:
+        # a variable bound to the empty string is bound
+        e.add("variant", "", "")
+        if rng.random() < 0.4:
+            e.add("nv", "{variant}x", "x")
     if exotic:
         k = rng.random()
         if k < 0.2:
@@ -501,6 +506,14 @@ class Case:
     pass
 
 
+def fix_empty_lead(atoms, env):
+    """a leading variable bound to "" makes the root test look at an empty first
+    segment; keep the expectation simple by giving such patterns a literal head"""
+    if atoms and atoms[0][0] == "V" and env.resolved.get(atoms[0][1]) == "":
+        return [("L", "z")] + atoms
+    return atoms
+
+
 def gen_case(rng, two_starstar=False, loose=False):
     """a pattern pair with the same wildcard sequence + environments"""
     c = Case()
@@ -521,8 +534,8 @@ def gen_case(rng, two_starstar=False, loose=False):
         na = na + ["unbound"]
     if loose and rng.random() < 0.3:
         nb = nb + ["free"]
-    c.atoms_a = gen_side(rng, wild, na, sps, lead_var=0.3)
-    c.atoms_b = gen_side(rng, wild, nb, sps, lead_var=0.7)
+    c.atoms_a = fix_empty_lead(gen_side(rng, wild, na, sps, lead_var=0.3), c.enva)
+    c.atoms_b = fix_empty_lead(gen_side(rng, wild, nb, sps, lead_var=0.7), c.envb)
     roota = rng.choice([None] * 6 + ["/r", "/r/s", "/"] + META_ROOTS)
     rootb = rng.choice([None] * 6 + ["/l", "/abs"] + META_ROOTS[:3])
     c.a = (atoms_text(c.atoms_a), list(c.enva.pairs), roota)
@@ -701,12 +714,14 @@ def use(m, paths, partner):
             pass
 
 
-def build_chain(base, ops, used, paths, partner_side):
+def build_chain(base, ops, used, paths, partner_side, stages=None):
     m = mk(base)
     partner = mk(partner_side)
     for op in ops:
         if used:
             use(m, paths, partner)
+        if stages is not None:
+            stages.append((m, observe(m, partner, paths)))
         m = derive(m, op)
     return m, partner
 
@@ -898,11 +913,24 @@ def run_stateful(chk, model, n, suite="STATEFUL"):
             fresh_err = None
         except Exception as e:  # noqa
             fresh, fresh_err = None, type(e).__name__
+        stages = []
         try:
-            usedm, up = build_chain(base, ops, True, paths, partner_side)
+            usedm, up = build_chain(base, ops, True, paths, partner_side, stages)
             used_err = None
         except Exception as e:  # noqa
             usedm, used_err = None, type(e).__name__
+        # aliasing: deriving from a matcher (and using what was derived) leaves the source
+        # and every earlier sibling as they were
+        if usedm is not None:
+            use(usedm, paths, up)
+            for k, (st, before) in enumerate(stages):
+                after = observe(st, up, paths)
+                if after != before:
+                    names = ["str", "prefix", "match", "sub-to-partner", "sub-from-partner"]
+                    what = [nm for nm, x, y in zip(names, before, after) if x != y]
+                    chk.fail("matcher-aliasing", dict(case, stage=k),
+                             {"changed": what, "before": before[:2], "after": after[:2]})
+                    break
         chk.count(("stateful", base, tuple(map(repr, ops)), tuple(paths)))
         chk.hist("chain_ops", "+".join(op[0] for op in ops))
         if fresh is None or usedm is None:
